@@ -422,7 +422,7 @@ func TestIntLiteral(t *testing.T) {
 		Check:      checkLiteral,
 		NonTrivial: intNonTrivial,
 		Classes:    litClasses,
-		Quick:      150000, Thorough: 1200000,
+		Quick:      150000, Thorough: 600000,
 	})
 }
 
@@ -440,6 +440,6 @@ func TestFloatLiteral(t *testing.T) {
 		Check:      checkLiteral,
 		NonTrivial: floatNonTrivial,
 		Classes:    litClasses,
-		Quick:      80000, Thorough: 600000,
+		Quick:      80000, Thorough: 300000,
 	})
 }
